@@ -1,7 +1,7 @@
 """C11 — tree navigation and position lookup (DESIGN §2 C11)."""
 from hypothesis import strategies as st
 
-from ..common import PROVENANCES, tree_via, advance, crash_signature, digest, grammar, is_zero_width, leaves, nodes_preorder, ref_split_lines, short
+from ..common import maybe_disturb, PROVENANCES, tree_via, advance, crash_signature, digest, grammar, is_zero_width, leaves, nodes_preorder, ref_split_lines, short
 from ..engine import Outcome, Prop
 from ..gen import text as T
 
@@ -174,6 +174,7 @@ class C11(Prop):
         code, v = case['code'], case['version']
         try:
             ts = [tuple(t) for t in case['type_sets']]
+            maybe_disturb(grammar(v), code, v)
             m, prov = tree_via(grammar(v), code, case.get('prov', 'fresh'), case.get('how', 0), digest(code, v, 'c11').hex(),
                                lambda mod, text: check_navigation(mod, text, ts))
             fail, info = check_navigation(m, code, ts)
